@@ -7,6 +7,7 @@ from sa.astx import call_name, dotted, lincmp, lin_expect, src, walk_local
 from sa.effects import accesses, class_accesses
 from sa.selftest import Mutant, Silent
 from sa.source import methods
+from sa.props._lib_d import Inliner, resolve_locals
 from sa.props._lib_d import (NONNULL, call_nodes, calls_with, const_value_is, implied, is_self_attr, must_pass_under,
                              path_under, reach_under, self_assigns, slice_parts, succ_of)
 
@@ -38,6 +39,9 @@ QM = "twisted.internet.abstract."
 QFD = QM + "FileDescriptor"
 QCM = QM + "_ConsumerMixin"
 BUF, LEN = "_tempDataBuffer", "_tempDataLen"
+# the methods the rules are written against; any other private method of these classes is a helper introduced later and is
+# analysed as if inlined at its call sites (sa.props._lib_d.Inliner)
+KNOWN = ['__init__', '_closeWriteConnection', '_getLogPrefix', '_isSendBufferFull', '_maybePauseProducer', '_postLoseConnection', 'connectionLost', 'doRead', 'doWrite', 'fileno', 'getHost', 'getPeer', 'logPrefix', 'loseConnection', 'loseWriteConnection', 'pauseProducing', 'readConnectionLost', 'registerProducer', 'resumeProducing', 'startReading', 'startWriting', 'stopConsuming', 'stopProducing', 'stopReading', 'stopWriting', 'unregisterProducer', 'write', 'writeConnectionLost', 'writeSequence', 'writeSomeData']
 
 
 def _q(cls, name):
@@ -155,18 +159,30 @@ def check(ctx):
     mod = ctx.mod(ABS)
     fd = ctx.cls(ABS, "FileDescriptor")
     cm = ctx.cls(ABS, "_ConsumerMixin")
+    inl = Inliner(mod, ["FileDescriptor", "_ConsumerMixin"], KNOWN)
+
+    def view(qual):
+        return inl.view(ctx.func(ABS, qual))
+
+    def analysed_methods(cls):
+        """(name, function to analyse): known methods as inlined views; a helper unknown to the rules only if it could not be
+        inlined everywhere (then it is judged on its own)."""
+        ms = methods(cls)
+        out = [(n, inl.view(m)) for n, m in ms.items() if n in KNOWN]
+        out += [(n, m) for n, m in ms.items() if n not in KNOWN and (n not in inl.inlined or n in inl.refused)]
+        return out
 
     with ctx.section("buffer/length coupling"):
         # ---- (a) K7 buffer <-> length, in every method of the class --------------------------------------
         sites = 0
-        for name, f in methods(fd).items():
+        for name, f in analysed_methods(fd):
             sites += _coupling(ctx, "FileDescriptor", name, f)
         ctx.floor("buffer-len/coupled", sites, 4)
 
     with ctx.section("write and writeSequence"):
         # ---- (b) write / writeSequence ----------------------------------------------------------------------
         for name in ("write", "writeSequence"):
-            f = ctx.func(ABS, f"FileDescriptor.{name}")
+            f = view(f"FileDescriptor.{name}")
             g = ctx.cfg(f)
             q = _q("FileDescriptor", name)
             muts = [a for a in accesses(f, name, {BUF}, {"self"}) if a.kind in ("append", "extend")]
@@ -204,7 +220,7 @@ def check(ctx):
 
     with ctx.section("doWrite"):
         # ---- (c) doWrite: what is sent, how offset moves ---------------------------------------------------------
-        f = ctx.func(ABS, "FileDescriptor.doWrite")
+        f = view("FileDescriptor.doWrite")
         g = ctx.cfg(f)
         q = _q("FileDescriptor", "doWrite")
         sends = calls_with(g, "self.writeSomeData")
@@ -417,7 +433,7 @@ def check(ctx):
     with ctx.section("producer pause flag"):
         # ---- (e) producer flag coupling, fullness, pausing ----------------------------------------------------------------
         nflag = 0
-        for name, m in methods(fd).items():
+        for name, m in analysed_methods(fd):
             gm = ctx.cfg(m)
             qm = _q("FileDescriptor", name)
             pauses = call_nodes(gm, "self.producer.pauseProducing")
@@ -451,11 +467,11 @@ def check(ctx):
 
     with ctx.section("_isSendBufferFull"):
         # ---- fullness
-        f = ctx.func(ABS, "FileDescriptor._isSendBufferFull")
+        f = view("FileDescriptor._isSendBufferFull")
         q2 = _q("FileDescriptor", "_isSendBufferFull")
         rets = [x for x in walk_local(f) if isinstance(x, ast.Return) and x.value is not None]
         ctx.need(len(rets) == 1, "single return in _isSendBufferFull")
-        nf = lincmp(rets[0].value)
+        nf = lincmp(resolve_locals(f, rets[0].value))
         want = [lin_expect({"len(self.dataBuffer)": 1, "self._tempDataLen": 1, "self.bufferSize": -1}, 1),
                 lin_expect({"len(self.dataBuffer)": 1, "self.offset": -1, "self._tempDataLen": 1, "self.bufferSize": -1}, 1)]
         ctx.check(nf in want, "full/boundary", ctx.construct(q2, rets[0]),
@@ -464,7 +480,7 @@ def check(ctx):
 
     with ctx.section("_maybePauseProducer"):
         # ---- pausing
-        f = ctx.func(ABS, "FileDescriptor._maybePauseProducer")
+        f = view("FileDescriptor._maybePauseProducer")
         g2 = ctx.cfg(f)
         q2 = _q("FileDescriptor", "_maybePauseProducer")
         pauses = call_nodes(g2, "self.producer.pauseProducing")
@@ -483,7 +499,7 @@ def check(ctx):
 
     with ctx.section("loseConnection"):
         # ---- (f) close requests, producer registration ---------------------------------------------------------------------
-        f = ctx.func(ABS, "FileDescriptor.loseConnection")
+        f = view("FileDescriptor.loseConnection")
         g3 = ctx.cfg(f)
         q3 = _q("FileDescriptor", "loseConnection")
         hard = call_nodes(g3, "self.connectionLost", "self._postLoseConnection", "self._closeSocket")
@@ -507,7 +523,7 @@ def check(ctx):
 
     with ctx.section("loseWriteConnection"):
         # ---- loseWriteConnection
-        f = ctx.func(ABS, "FileDescriptor.loseWriteConnection")
+        f = view("FileDescriptor.loseWriteConnection")
         g4 = ctx.cfg(f)
         q4 = _q("FileDescriptor", "loseWriteConnection")
         ws = self_assigns(g4, "_writeDisconnecting", lambda v: const_value_is(v, lambda x: x is True))
@@ -520,7 +536,7 @@ def check(ctx):
 
     with ctx.section("unregisterProducer"):
         # ---- unregisterProducer
-        f = ctx.func(ABS, "_ConsumerMixin.unregisterProducer")
+        f = view("_ConsumerMixin.unregisterProducer")
         g5 = ctx.cfg(f)
         q5 = _q("_ConsumerMixin", "unregisterProducer")
         clr = self_assigns(g5, "producer", lambda v: const_value_is(v, lambda x: x is None))
@@ -533,7 +549,7 @@ def check(ctx):
 
     with ctx.section("registerProducer"):
         # ---- registerProducer
-        f = ctx.func(ABS, "_ConsumerMixin.registerProducer")
+        f = view("_ConsumerMixin.registerProducer")
         g6 = ctx.cfg(f)
         q6 = _q("_ConsumerMixin", "registerProducer")
         pparam = f.args.args[1].arg if len(f.args.args) >= 3 else "producer"
@@ -565,7 +581,7 @@ def check(ctx):
 
     with ctx.section("connectionLost"):
         # ---- connectionLost
-        f = ctx.func(ABS, "FileDescriptor.connectionLost")
+        f = view("FileDescriptor.connectionLost")
         g7 = ctx.cfg(f)
         q7 = _q("FileDescriptor", "connectionLost")
         c0 = self_assigns(g7, "connected", lambda v: const_value_is(v, lambda x: not x))
@@ -593,7 +609,7 @@ def check(ctx):
         }
         acc = class_accesses(mod, fd, set(allow), {"self"}) + class_accesses(mod, cm, set(allow), {"self"})
         for a in acc:
-            ctx.check(a.func in allow[a.attr], "who-may-write/" + a.attr, ctx.construct(QM + a.func, a.node),
+            ctx.check(inl.permitted(a.func.split(".")[-1], {x.split(".")[-1] for x in allow[a.attr]}), "who-may-write/" + a.attr, ctx.construct(QM + a.func, a.node),
                       f"self.{a.attr} is modified outside the functions that own the write-buffer protocol")
         ctx.floor("who-may-write", len(acc), 20)
 
@@ -651,6 +667,14 @@ MUTANTS = [
            "                self.producer.pauseProducing()\n", expect_rule="producer-flag/pause-recorded"),
     Mutant("streaming-flag-not-recorded", ABS, "            self.producer = producer\n            self.streamingProducer = streaming\n",
            "            self.producer = producer\n", expect_rule="register/streaming-recorded"),
+    Mutant("helper-drops-length-update", ABS,
+           "            self._tempDataBuffer.append(data)\n            self._tempDataLen += len(data)\n            self._maybePauseProducer()\n            self.startWriting()\n",
+           "            self._tempDataBuffer.append(data)\n            self._noteQueued(len(data))\n",
+           more=[(ABS, "    def write(self, data: bytes) -> None:\n",
+                  "    def _noteQueued(self, count):\n        self._maybePauseProducer()\n        self.startWriting()\n\n    def write(self, data: bytes) -> None:\n")],
+           expect_rule="buffer-len/coupled"),
+    Mutant("helper-writes-offset-from-outside-dowrite", ABS, "    def pauseProducing(self):\n        self.stopReading()\n",
+           "    def pauseProducing(self):\n        self._rewind()\n        self.stopReading()\n\n    def _rewind(self):\n        self.offset = 0\n", expect_rule="who-may-write/offset"),
     Mutant("temp-reset-outside-rebase", ABS,
            "            self.offset = 0\n            self._tempDataBuffer = []\n            self._tempDataLen = 0\n\n        # Send as much",
            "            self.offset = 0\n        self._tempDataBuffer = []\n        self._tempDataLen = 0\n\n        # Send as much",
@@ -678,6 +702,31 @@ SILENT = [
            "                return self._postLoseConnection()\n            elif self._writeDisconnecting:\n",
            "            elif self.disconnecting:\n                result = self._postLoseConnection()\n                return result\n            elif self._writeDisconnecting:\n",
            allow_error=False),
+    Silent("full-test-through-named-temporary", ABS, "        return len(self.dataBuffer) + self._tempDataLen > self.bufferSize",
+           "        queued = self._tempDataLen + len(self.dataBuffer)\n        return queued > self.bufferSize"),
+    Silent("buffering-tail-extracted-into-helper", ABS,
+           "            self._tempDataBuffer.append(data)\n            self._tempDataLen += len(data)\n            self._maybePauseProducer()\n            self.startWriting()\n",
+           "            self._tempDataBuffer.append(data)\n            self._noteQueued(len(data))\n",
+           more=[(ABS, "        self._tempDataBuffer.extend(iovec)\n        for i in iovec:\n            self._tempDataLen += len(i)\n        self._maybePauseProducer()\n        self.startWriting()\n",
+                  "        self._tempDataBuffer.extend(iovec)\n        self._noteQueued(sum(map(len, iovec)))\n"),
+                 (ABS, "    def write(self, data: bytes) -> None:\n",
+                  "    def _noteQueued(self, count):\n        self._tempDataLen += count\n        self._maybePauseProducer()\n        self.startWriting()\n\n    def write(self, data: bytes) -> None:\n")]),
+    Silent("dowrite-split-into-helpers", ABS,
+           "            self.dataBuffer = _concatenate(\n                self.dataBuffer, self.offset, self._tempDataBuffer\n            )\n            self.offset = 0\n            self._tempDataBuffer = []\n            self._tempDataLen = 0\n",
+           "            self._mergeQueued()\n",
+           more=[(ABS, "        if self.offset:\n            l = self.writeSomeData(lazyByteSlice(self.dataBuffer, self.offset))\n        else:\n            l = self.writeSomeData(self.dataBuffer)\n",
+                  "        l = self.writeSomeData(self._toSend())\n"),
+                 (ABS, "    def _postLoseConnection(self):\n",
+                  "    def _mergeQueued(self):\n        self.dataBuffer = _concatenate(self.dataBuffer, self.offset, self._tempDataBuffer)\n        self.offset = 0\n"
+                  "        self._tempDataBuffer = []\n        self._tempDataLen = 0\n\n    def _toSend(self):\n        if not self.offset:\n            return self.dataBuffer\n"
+                  "        return lazyByteSlice(self.dataBuffer, self.offset)\n\n    def _postLoseConnection(self):\n")]),
+    Silent("lose-connection-guard-clause", ABS,
+           "        if self.connected and not self.disconnecting:\n            if self._writeDisconnected:\n                # doWrite won't trigger the connection close anymore\n"
+           "                self.stopReading()\n                self.stopWriting()\n                self.connectionLost(failure.Failure(main.CONNECTION_DONE))\n"
+           "            else:\n                self.stopReading()\n                self.startWriting()\n                self.disconnecting = 1\n",
+           "        if not self.connected or self.disconnecting:\n            return\n        halfClosed = self._writeDisconnected\n        self.stopReading()\n"
+           "        if halfClosed:\n            self.stopWriting()\n            self.connectionLost(failure.Failure(main.CONNECTION_DONE))\n            return\n"
+           "        self.startWriting()\n        self.disconnecting = 1\n"),
     Silent("unregister-guard-nested", ABS, "        if self.connected and self.disconnecting:\n            self.startWriting()\n\n\n@implementer(interfaces.ILoggingContext)",
            "        if self.connected:\n            if self.disconnecting:\n                self.startWriting()\n\n\n@implementer(interfaces.ILoggingContext)"),
 ]
